@@ -1,4 +1,5 @@
-/-! Driver executable for family `alphwatch` — placeholder until the family is built. -/
+import Whv.Driver.AlphWatch
+/-! Driver executable for family `alphwatch` (C08, C09): case lines on stdin, verdict lines on stdout. -/
 def main : IO UInt32 := do
-  IO.eprintln "family not built"
-  return 2
+  Whv.Driver.AlphWatchFam.run (← IO.getStdin)
+  return 0
